@@ -210,6 +210,31 @@ def run(E: Engine, rep: Report, tier: str) -> dict:
             ma, mb = is_(ua, "dataclasses.asdict(Q_x.eom_config)"), is_(ub, "dataclasses.asdict(Q_y.eom_config)")
             if ma is not None and mb is not None and {ma["Q_x"], mb["Q_y"]} == both:
                 eom_whole = True
+    # timing parameters are compared exactly: durations derived from them are truncated to integers (rise time, buffer
+    # time, retarget time), so two "close" values can fall on different sides of a truncation
+    n_tol = 0
+    for l in Sc.log:
+        if l.kind != "call" or l.value[1][0] != "attr" or l.value[1][2] not in ("isclose", "allclose"):
+            continue
+        args_ = list(l.value[2])[:2]
+        if len(args_) == 2 and all(sym.contains(args_[0], t_) or sym.contains(args_[1], t_) for t_ in both) and all(unobj(a_)[0] == "attr" for a_ in args_):
+            n_tol += 1
+            fld_ = unobj(args_[0])[2]
+            rep.violation("TABLE", f"strict-compare|{fld_}|exact", f"check_channels_match compares `{sh(args_[0], 60)}` with `{sh(args_[1], 60)}` through {l.value[1][2]} (a tolerance): the schedule derives integer durations from this parameter by truncation, so two values inside the tolerance can still give different rise / fall / buffer times and a strict switch returns a different timeline", E.where(ccm, l.node))
+    # under strict=True a "match" answer is given only after the parameter comparison: every `return ("", "")` is either
+    # on a `not strict` path or follows the comparison loop
+    loop_tests = [i for i, l in enumerate(Sc.log) if l.kind == "test" and l.loops and is_(l.value, "getattr(Q_x, Q_p) != getattr(Q_y, Q_p)") is not None]
+    MATCH = ("tuple", ("const", ""), ("const", ""))
+    n_ret = 0
+    for i, l in enumerate(Sc.log):
+        if l.kind != "return" or l.fn != ccm.short or unobj(l.value) != MATCH:
+            continue
+        n_ret += 1
+        non_strict = sym.mk_not(("name", "strict")) in sym.conj_of(l.cond)
+        rep.check(non_strict or (loop_tests and i > max(loop_tests)), "TABLE", f"strict-compare|match-only-after-parameter-comparison|return{n_ret}", "`return ('', '')` is reached under `not strict` or after the strict parameter loop",
+                  f"check_channels_match answers \"match\" under `{sh(l.cond, 120)}` before the strict parameter comparison (mod_bandwidth, clock_period, min_duration, ...) was made: for those channels strict=True no longer compares the timing parameters and switch_device returns a sequence with a different timeline", E.where(ccm, l.node))
+    if n_ret < 1:
+        raise AnalysisError("anchor: check_channels_match has no `return ('', '')`")
     covered = set()
     for a in compared:
         if a.startswith("eom_config."):
